@@ -274,6 +274,26 @@ theorem stateless_step_frame (S : Spec T C) (hc : S.cache = false) (s : Obj T) (
   · rfl
   · rfl
 
+/-- a NON-caching decoder whose kept bytes do not decode — empty or not (`GetRecords` on empty
+    `Records` fails as well): every access in every history fails -/
+theorem stateless_access_fails (S : Spec T C) (hc : S.cache = false) (ops : List Op) (s : Obj T)
+    (hbad : (S.parse s.raw).2 = false) :
+    ∀ i : Nat, ops[i]? = some Op.access → (runOps S s ops)[i]? = some Obs.failed := by
+  induction ops generalizing s with
+  | nil => intro i h; simp at h
+  | cons op ops ih =>
+    intro i h
+    have hs : (step S s op).1 = s := stateless_step_frame S hc s op
+    cases i with
+    | zero =>
+      simp only [List.getElem?_cons_zero, Option.some.injEq] at h
+      subst h
+      simp only [runOps, List.getElem?_cons_zero, step, hc, Bool.and_false, Bool.false_eq_true, if_false, hbad]
+    | succ i =>
+      simp only [List.getElem?_cons_succ] at h
+      simp only [runOps, List.getElem?_cons_succ, hs]
+      exact ih s hbad i h
+
 /-! ### the wrong order is not fail-closed -/
 
 /-- a toy table: columns are single bytes below 128, a byte ≥ 128 is a damaged column -/
